@@ -18,14 +18,14 @@ import (
 
 // monC13: consumers are isolated from one another (provider store diffs attributed to consumer ids).
 type monC13 struct {
-	w        *World
-	layoutOK bool
-	prevEnd  StoreSnap
-	begin    StoreSnap
-	preEnd   StoreSnap
-	postEnd  StoreSnap
-	epoch    bool
-	now      time.Time
+	w              *World
+	layoutOK       bool
+	prevEnd        StoreSnap
+	begin          StoreSnap
+	preEnd         StoreSnap
+	postEnd        StoreSnap
+	epoch          bool
+	now            time.Time
 	beginConcerned map[string]bool
 }
 
